@@ -446,6 +446,7 @@ func TestCheck(t *testing.T) {
 	rep.Bound("max_desired_resources", maxRes)
 	scs := []report.Scenario{
 		{Name: "pipeline", Bound: 0, Wrap: report.Bubble(t), Body: func(r *explore.Run) { pipelineBody(r, rep, "pipeline", maxRes) }},
+		{Name: "long-lived-reconciler", Bound: 0, Wrap: report.Bubble(t), Body: func(r *explore.Run) { seqBody(r, rep, "long-lived-reconciler") }},
 		{Name: "pt", Bound: 0, Wrap: report.Bubble(t), Body: func(r *explore.Run) { ptBody(r, rep, "pt") }},
 		{Name: "claim-cache-lag", Bound: 0, Wrap: report.Bubble(t), Body: func(r *explore.Run) { claimLagBody(r, rep, "claim-cache-lag") }},
 	}
